@@ -377,8 +377,62 @@ func c08Cfg(t *testing.T, tape *Tape, key string, body func(r *Run)) RunCfg {
 		profMu.Unlock()
 	}
 	cfg := RunCfg{MaxOps: 60000, MaxDecisions: 8000}
-	strategy := tape.Choose(5)
+	strategy := tape.Choose(9)
+	if strategy == 6 {
+		strategy = 5
+	}
 	switch strategy {
+	case 8: // one single site of the profile, with a budget of its own (the site sweep enumerates them)
+		cfg.QuantumMax = [...]int{0, 2, 6}[tape.Choose(3)]
+		if len(prof) > 0 {
+			cfg.HotSites = append(cfg.HotSites, prof[tape.Choose(len(prof))])
+		}
+		cfg.PerSiteBudget = 12
+		cfg.StallMax = [...]int{0, 0, 4}[tape.Choose(3)]
+	case 7: // branches the default schedule never takes, inside the closures it executes (fast and slow paths, error paths)
+		cfg.QuantumMax = [...]int{0, 2, 6}[tape.Choose(3)]
+		inProf := map[int]bool{}
+		funcsP := map[string]bool{}
+		for _, si := range prof {
+			inProf[si] = true
+			funcsP[interp.VerifSites[si].Func] = true
+		}
+		for si, st := range interp.VerifSites {
+			if funcsP[st.Func] && !inProf[si] && (st.Kind == "stmt" || st.Kind == "stmt-after-run" || st.Kind == "operand") {
+				cfg.HotSites = append(cfg.HotSites, si)
+			}
+		}
+		cfg.PerSiteBudget = [...]int{2, 5, 12}[tape.Choose(3)]
+		cfg.StallMax = [...]int{0, 0, 4}[tape.Choose(3)]
+	case 5: // every statement of one to three operation closures: check-then-act windows inside one operation
+		cfg.QuantumMax = [...]int{0, 2, 6}[tape.Choose(3)]
+		var funcs []string
+		seenF := map[string]bool{}
+		for _, si := range prof {
+			if fn := interp.VerifSites[si].Func; !seenF[fn] {
+				seenF[fn] = true
+				funcs = append(funcs, fn)
+			}
+		}
+		if len(funcs) > 0 {
+			pick := map[string]bool{}
+			// one closure, three, or a quarter of those the instance executes
+			np := [...]int{1, 3, 1 + len(funcs)/4}[tape.Choose(3)]
+			for i := np; i > 0; i-- {
+				pick[funcs[tape.Choose(len(funcs))]] = true
+			}
+			// every site of the chosen closures, including the branches the
+			// default schedule did not take
+			for si, st := range interp.VerifSites {
+				if pick[st.Func] && (st.Kind == "stmt" || st.Kind == "stmt-after-run" || st.Kind == "operand") {
+					cfg.HotSites = append(cfg.HotSites, si)
+				}
+			}
+		}
+		cfg.PerSiteBudget = [...]int{2, 5, 12}[tape.Choose(3)]
+		// the task parked inside the closure may be held back while others go
+		// through the same closure
+		cfg.StallMax = [...]int{0, 2, 6, 20}[tape.Choose(4)]
 	case 4: // preemption between a callee's exit (deferred calls included) and the delivery of its results
 		cfg.QuantumMax = [...]int{0, 2, 6}[tape.Choose(3)]
 		for i, st := range interp.VerifSites {
@@ -387,7 +441,7 @@ func c08Cfg(t *testing.T, tape *Tape, key string, body func(r *Run)) RunCfg {
 			}
 		}
 		cfg.YieldBudget = [...]int{10, 40, 120, 400}[tape.Choose(4)]
-		cfg.YieldSkip = [...]int{0, 0, 30, 300, 3000}[tape.Choose(5)]
+		cfg.YieldSkip = [...]int{0, 0, 0, 20, 150}[tape.Choose(5)]
 	case 0: // run to block, rare preemption
 		cfg.QuantumMax = 0
 	case 1: // random walk at operation boundaries
@@ -403,7 +457,7 @@ func c08Cfg(t *testing.T, tape *Tape, key string, body func(r *Run)) RunCfg {
 		cfg.YieldBudget = [...]int{10, 40, 120, 400}[tape.Choose(4)]
 		// let a drawn number of hot-site hits pass first, so that the budget is
 		// not always spent at the beginning of the run
-		cfg.YieldSkip = [...]int{0, 0, 30, 300, 3000}[tape.Choose(5)]
+		cfg.YieldSkip = [...]int{0, 0, 0, 20, 150}[tape.Choose(5)]
 		if strategy == 3 {
 			cfg.StallMax = 2 + tape.Choose(6)
 		}
@@ -728,8 +782,45 @@ func RunC08R(t *testing.T, tape *Tape) *Outcome {
 	return o
 }
 
+// The site sweep (fault enumeration over preemption sites): the first case
+// indices give every template, with its largest parameters and with drawn
+// ones, one run per profiled intra-operation site in which that site alone
+// preempts (up to 12 times). A window that is one statement wide is thereby
+// visited deliberately instead of being left to the draw of hot sites.
+const c08SweepSites = 256
+
+const c08SweepReps = 4 // rep 0: largest parameters; others: drawn parameters
+
+func c08SweepCount() int { return len(templates) * c08SweepSites * c08SweepReps }
+
+func c08SweepTape(seed uint64, idx int) *Tape {
+	nt := len(templates)
+	ti := idx % nt
+	j := (idx / nt) % c08SweepSites
+	rep := idx / (nt * c08SweepSites)
+	pre := []int{0, ti} // variant eval-call, template
+	x := Mix(seed, uint64(idx), 88)
+	for _, m := range templates[ti].ParamMax {
+		if rep == 0 {
+			pre = append(pre, m)
+		} else {
+			pre = append(pre, int(splitmix(&x)%uint64(m+1)))
+		}
+	}
+	pre = append(pre, 8, int(splitmix(&x)%3), j) // strategy 8, quantum, site
+	return PrefixTape(pre, Mix(seed, uint64(idx), 8))
+}
+
 func init() {
-	Props["C08"] = &PropDef{ID: "C08", Run: RunC08R, Case: func(t *testing.T, c *CaseCtx, idx int) {
+	Props["C08"] = &PropDef{ID: "C08", Run: RunC08R, Extra: func(job *Job) map[string]any {
+		return map[string]any{"site_sweep": fmt.Sprintf("case indices 0..%d: every template (largest and drawn parameters) x every profiled intra-operation site as the only preempting site (wrapping at %d sites per template)", c08SweepCount()-1, c08SweepSites)}
+	}, Case: func(t *testing.T, c *CaseCtx, idx int) {
+		if idx < c08SweepCount() {
+			o := RunC08R(t, c08SweepTape(c.Job.Seed, idx))
+			o.FaultFired["site-sweep-runs"]++
+			c.Emit(o)
+			return
+		}
 		c.Emit(RunC08R(t, NewTape(Mix(c.Job.Seed, uint64(idx), 8))))
 	}}
 }
